@@ -129,3 +129,50 @@ Proof.
   split; [reflexivity|]. split; [|vm_compute; reflexivity].
   intros k1 k2 H1 H2 _. cbn in H1, H2. destruct H1 as [<-|[]]. destruct H2 as [<-|[]]. reflexivity.
 Qed.
+
+(* ------------------------------------------------------------------ *)
+(** * Sub-group arguments (ArgH/SubGroup.v, SubGroupProofs.v)
+
+    A sub-group argument hands the following elements to its own handler as
+    long as that handler consumes them.  What it does not know is not lost: the
+    iterator handed back to the main handler delivers exactly that element
+    next (or the end), so an unknown argument or a stray value behind a
+    sub-group key is refused like anywhere else.  The pinned code skipped it
+    (found by the tie on sub-group cases, repaired: "fix: the argument behind a
+    sub-group argument is no longer skipped ..."). *)
+Require Import Celma.ArgH.SubGroup Celma.ArgH.SubGroupProofs.
+
+Theorem C02_subgroup_leaves_the_unknown_element :
+  forall cs fuel s ai s' ai',
+    sub_take fuel cs s ai = Ok (s', ai') ->
+    next false ai' = Ok None \/
+    exists e it_e s0 i1, next false ai' = Ok (Some (e, it_e)) /\
+                         eval_single cs s0 false e it_e = Ok (AUnknown, s', i1).
+Proof. exact sub_take_stops. Qed.
+Print Assumptions C02_subgroup_leaves_the_unknown_element.
+
+Theorem C02_subgroup_nothing_consumed :
+  forall cs f s cur e it_e s1 i1,
+    next false cur = Ok (Some (e, it_e)) -> eval_single cs s false e it_e = Ok (AUnknown, s1, i1) ->
+    sub_take (S f) cs s cur = Ok (s1, cur).
+Proof. exact sub_take_nothing. Qed.
+Print Assumptions C02_subgroup_nothing_consumed.
+
+(** the pinned behaviour: "-o -x" (unknown -x behind the sub-group key -o) was
+    accepted and "-o -x -v" set -v; both are refused now *)
+Theorem C02_pinned_subgroup_refuted :
+  is_ok (eval_sg true sgx_cfg [VBool false] [[VBool false]] argv_o_x) = true /\
+  eval_sg false sgx_cfg [VBool false] [[VBool false]] argv_o_x = Err EInvalidArgument /\
+  (exists st, eval_sg true sgx_cfg [VBool false] [[VBool false]] argv_o_x_v = Ok st /\
+              map val (arts (sm st)) = [VBool true]) /\
+  eval_sg false sgx_cfg [VBool false] [[VBool false]] argv_o_x_v = Err EInvalidArgument.
+Proof. exact pinned_subgroup_refuted. Qed.
+Print Assumptions C02_pinned_subgroup_refuted.
+
+(** without sub-group arguments the extended loop is the loop of Handler.v *)
+Theorem C02_subgroup_conservative :
+  forall c, sg_subs c = [] -> forall pinned ic fuel st cur,
+    loop_sg pinned c fuel st ic cur =
+    do m <- iterate fuel (sg_main c) (sm st) ic cur; Ok {| sm := m; ss := ss st; scnt := scnt st |}.
+Proof. exact loop_sg_conservative. Qed.
+Print Assumptions C02_subgroup_conservative.
